@@ -111,6 +111,10 @@ func runProgram(prog []csOp, wraps string) (wire []csWire, reads []string, panic
 				authboss.DelSession(w, o.K)
 			case "DelAllS":
 				authboss.DelAllSession(w, []string{"wl"})
+			case "DelKnownS":
+				authboss.DelKnownSession(w)
+			case "DelKnownC":
+				authboss.DelKnownCookie(w)
 			case "PutC":
 				authboss.PutCookie(w, o.K, "v-"+o.K)
 			case "DelC":
@@ -225,12 +229,17 @@ func csrandom(args []string) {
 	fs.Parse(args)
 	rng := rand.New(rand.NewSource(*seed))
 	ops := []csOp{}
-	for _, o := range []string{"PutS", "DelS", "PutC", "DelC", "ReadS", "ReadC"} {
-		for _, k := range []string{"k1", "k2"} {
+	for _, o := range []string{"PutS", "DelS", "ReadS"} {
+		for _, k := range []string{"k1", "uid"} {
 			ops = append(ops, csOp{o, k})
 		}
 	}
-	for _, o := range []string{"DelAllS", "WriteHeader", "Write"} {
+	for _, o := range []string{"PutC", "DelC", "ReadC"} {
+		for _, k := range []string{"k1", "rm"} {
+			ops = append(ops, csOp{o, k})
+		}
+	}
+	for _, o := range []string{"DelAllS", "DelKnownS", "DelKnownC", "WriteHeader", "Write"} {
 		ops = append(ops, csOp{o, "-"})
 	}
 	f, _ := os.Create(*out)
